@@ -24,4 +24,5 @@ for mf in sorted(glob.glob("/verif/seeded/*/meta.json")):
     subprocess.run(["git", "-C", "/repo", "reset", "-q", "--hard", "HEAD"], check=True)
 subprocess.run(["git", "-C", "/verif", "checkout", "-q", "--", "evidence"])  # evidence written while /repo was patched is not kept
 subprocess.run(["python3", "/verif/tools/gen_consts.py"], stdout=subprocess.DEVNULL)
+subprocess.run(["python3", "/verif/tools/gen_funcs.py"], stdout=subprocess.DEVNULL)
 sys.exit(1 if bad else 0)
